@@ -1,6 +1,6 @@
 (* C04 -- expect() reports the first match and accounts for every consumed byte.
    Property theorems only; proofs are in ProofC04.v (and ProofC06.v for the deadline). *)
-From TV Require Import Base BaseLemmas Utf8 Regex RegexLemmas Channel ChannelLemmas ProofC02 ProofC03 ProofC04 ProofC06.
+From TV Require Import Base BaseLemmas Utf8 Regex RegexLemmas Channel ChannelLemmas ProofC02 ProofC03 ProofC04 ProofC06 ProofC04b.
 
 (* (1) when expect returns it consumed exactly `data`; the result is computed from the whole of what
        was consumed; nothing else of the channel changed *)
@@ -107,6 +107,40 @@ Theorem C04_no_timeout_without_deadline :
   forall fuel start pats buf c c', expect_loop fuel start None pats buf c <> (ETimeout, c').
 Proof. exact expect_loop_none_no_timeout. Qed.
 Print Assumptions C04_no_timeout_without_deadline.
+
+(* (6) liveness: when a match arrives in time, expect returns (a result, not an error) -- for every fragmentation and
+       timing.  ready = the number of bytes of the stream that arrive strictly before the deadline (all of them
+       without a timeout); monotone = a match never disappears when more data arrives (true of literals) *)
+Theorem C04_returns_when_the_match_arrives_in_time :
+  forall fuel start tmo pats buf c,
+  wfc c -> deaths c = [] -> in_time start tmo c -> monotone pats ->
+  try_patterns 0 pats buf = None ->
+  try_patterns 0 pats (buf ++ firstn (ready (deadline start tmo) (pend (io c))) (cpend c)) <> None ->
+  tot (pend (io c)) < fuel ->
+  exists r c', expect_loop fuel start tmo pats buf c = (Ret r, c') /\ deaths c' = [].
+Proof. exact expect_loop_live. Qed.
+Print Assumptions C04_returns_when_the_match_arrives_in_time.
+
+Theorem C04_literals_are_monotone :
+  forall pats, Forall (fun p => exists l, p = SLit l) pats -> monotone pats.
+Proof. exact literals_monotone. Qed.
+Print Assumptions C04_literals_are_monotone.
+
+(* ... and for one literal the whole result: index, match and `before` are those of the FIRST occurrence in the
+   stream, whatever the fragmentation; `after` is the rest of the piece that completed the match *)
+Theorem C04_literal_found_independent_of_fragmentation :
+  forall l tmo c a,
+  wfc c -> deaths c = [] -> match tmo with Some T => (0 < T)%Z | None => True end ->
+  l <> [] -> find_sub l (cpend c) = Some a ->
+  a + length l <= ready (deadline (now (io c)) tmo) (pend (io c)) ->
+  exists r c' data,
+    expect [SLit l] tmo c = (Ret r, c') /\
+    er_idx r = 0 /\ er_match r = l /\ er_before r = text (firstn a (cpend c)) /\
+    cpend c = data ++ cpend c' /\ firstn (a + length l) data = firstn a (cpend c) ++ l /\
+    er_after r = text (skipn (a + length l) data) /\ wfc c' /\ same_cfg c c' /\ deaths c' = [].
+Proof. exact expect_literal_live. Qed.
+Print Assumptions C04_literal_found_independent_of_fragmentation.
+
 
 Theorem C04_example :
   let c := chan_init [(0%Z, [120; 97]%N); (0%Z, [98; 99; 121]%N); (0%Z, [122]%N)] [] in
